@@ -2,8 +2,9 @@ open Model
 open Io
 
 (* request:  doc <TAB> first_line <TAB> tokens   where tokens (space separated, prefix notation) are
-     L m more | Q m n <n blocks> | I m n <..> | V m bb ba n <..> | D m fk os nopts bb ba n <..>
+     L kind m more nins (marker line)* | Q m n <n blocks> | I m n <..> | V m bb ba n <..> | D m fk os nopts bb ba n <..>
    reply:    printed lines (strs) <TAB> model lines "m:line;..." <TAB> true lines "m:line;..."
+   request:  incdoc <TAB> s <TAB> tokens  ->  model lines of the blocks rendered as an included file from line index s
    request:  inc <TAB> file lines (strs) <TAB> startline(~|n) <TAB> startafter(~|str)  ->  lineno <TAB> text | !notfound
    request:  incold <TAB> file lines <TAB> startafter                               ->  lineno <TAB> text *)
 
@@ -12,7 +13,15 @@ let int_of_z (z : z) : int = match z with Z0 -> 0 | Zpos p -> int_of_positive p 
 
 let rec parse_blk (toks : string list) : blk * string list =
   match toks with
-  | "L" :: m :: more :: r -> (Leaf (nat_of_int (int_of_string m), nat_of_int (int_of_string more)), r)
+  | "L" :: k :: m :: more :: nins :: r ->
+      let kind = (match k with "0" -> LPara | "1" -> LHeading | "2" -> LCode | "3" -> LTarget | "4" -> LBreak
+                             | "5" -> LComment | "6" -> LHtml | "7" -> LMath | "8" -> LTable
+                             | _ -> failwith ("bad leaf kind " ^ k)) in
+      let rec take n l acc = if n = 0 then (List.rev acc, l) else
+          (match l with a :: b :: r' -> take (n - 1) r' ((nat_of_int (int_of_string a), nat_of_int (int_of_string b)) :: acc)
+                      | _ -> failwith "bad inline list") in
+      let (ins, r') = take (int_of_string nins) r [] in
+      (Leaf (kind, nat_of_int (int_of_string m), nat_of_int (int_of_string more), ins), r')
   | "Q" :: m :: n :: r -> let (bs, r') = parse_n (int_of_string n) r in (Quote (nat_of_int (int_of_string m), bs), r')
   | "I" :: m :: n :: r -> let (bs, r') = parse_n (int_of_string n) r in (ListItem (nat_of_int (int_of_string m), bs), r')
   | "V" :: m :: bb :: ba :: n :: r ->
@@ -60,6 +69,11 @@ let handle (fs : string list) : string =
                  ^ show_pairs (fun x -> string_of_int (int_of_nat x)) truth
        | Raise AssertionError -> "!guard"
        | Raise MarkupError -> "!MarkupError"
+       | Raise _ -> "!exc")
+  | ["incdoc"; st; toks] ->
+      let doc = parse_all (String.split_on_char ' ' toks) in
+      (match include_lines stub_tokenize stub_yaml note_sig [] (nat_of_int (int_of_string st)) doc with
+       | Ok l -> show_pairs (fun z -> string_of_int (int_of_z z)) l
        | Raise _ -> "!exc")
   | ["inc"; lines; sl; sa] ->
       let sl = if sl = "~" then None else Some (nat_of_int (int_of_string sl)) in
